@@ -9,10 +9,10 @@ package jsontext
 // Instrumentation points for external runtime monitors.
 // Without the "verif" build tag they are empty and inlined away.
 
-func verifFetch(d *decoderState, grew bool)   {}
-func verifFlush(e *encoderState, n int)       {}
-func verifUnwrite(e *encoderState, kind int)  {}
-func verifGetEncoder(e *Encoder)              {}
-func verifPutEncoder(e *Encoder)              {}
-func verifGetDecoder(d *Decoder)              {}
-func verifPutDecoder(d *Decoder)              {}
+func verifFetch(d *decoderState, grew bool)  {}
+func verifFlush(e *encoderState, n int)      {}
+func verifUnwrite(e *encoderState, kind int) {}
+func verifGetEncoder(e *Encoder)             {}
+func verifPutEncoder(e *Encoder)             {}
+func verifGetDecoder(d *Decoder)             {}
+func verifPutDecoder(d *Decoder)             {}
